@@ -138,14 +138,13 @@ Proof.
   destruct (o_kind P G C ob) eqn:Ek; cbn in Hk; try discriminate; injection H as <-; exact R.
 Qed.
 
-(* grid_ of a dense model with tensor parameters always ends in data_; of a spline model only when
-   the control grid is subdivided; with callable parameters the base method clears unless the grids
-   compare equal *)
+(* grid_ of a dense model with tensor parameters always ends in data_; with other parameters the
+   base method clears unless its early-return test (same grid, same align_corners) passes; grid_ of a
+   spline model clears whenever it succeeds *)
 Definition grid_replaces (s : state) (ob : obj) (g : G) : Prop :=
+  is_spline (o_kind P G C ob) = true \/
   match get_params s ob with
-  | Some (VTen _ _) =>
-      is_dense (o_kind P G C ob) = true \/
-      (is_spline (o_kind P G C ob) = true /\ ffd_sub (o_grid P G C ob) g = Some true)
+  | Some (VTen _ _) => is_dense (o_kind P G C ob) = true
   | Some _ => is_dense (o_kind P G C ob) = true /\ geq (o_grid P G C ob) g = false
   | None => False
   end.
@@ -172,15 +171,37 @@ Proof.
     destruct ob1; cbn in *; auto.
 Qed.
 
+Lemma spline_install_clears s o g ob :
+  get_obj s o = Some ob -> is_nonrigid (o_kind P G C ob) = true ->
+  exists ob1, get_obj (spline_install P G C cf s o g) o = Some ob1 /\ o_kind P G C ob1 = o_kind P G C ob
+    /\ o_u P G C ob1 = None.
+Proof.
+  destruct (cfg_all_fields _ Hcf) as (_ & _ & _ & _ & _ & _ & _ & _ & _ & _ & _ & _ & _ & _ & _ & _ & Hsg).
+  intros Hg Hk. unfold spline_install. rewrite Hsg.
+  destruct (clear_clears _ _ _ Hg Hk) as (ob1 & Hg1 & Hk1 & Hu1).
+  fold (get_obj (clear_buffers s o) o). rewrite Hg1.
+  exists (set_grid P G C ob1 g). split; [apply (get_set_same' _ _ _ _ Hg1)|].
+  assert (o_kind P G C ob1 = o_kind P G C ob).
+  { unfold TransformState.clear_buffers in Hg1. fold (get_obj s o) in Hg1. rewrite Hg in Hg1.
+    assert (E : TransformState.clear1 P G C cf s o = set_obj s o (clear_obj P G C cf ob)).
+    { unfold clear1. fold (get_obj s o). rewrite Hg. reflexivity. }
+    destruct (o_kind P G C ob) eqn:Ek; cbn in Hk; try discriminate; rewrite E in Hg1;
+      rewrite (get_set_same' _ _ _ _ Hg) in Hg1; injection Hg1 as <-;
+      unfold clear_obj; rewrite Ek; cbn; destruct ob; cbn in *; auto. }
+  destruct ob1; cbn in *; auto.
+Qed.
+
 Lemma grid_set_clears s o g s1 ob :
   get_obj s o = Some ob -> is_nonrigid (o_kind P G C ob) = true -> grid_replaces s ob g ->
   grid_set s o g = Ok tt s1 -> cleared s1 o.
 Proof.
-  destruct (cfg_all_fields _ Hcf) as (_ & _ & _ & _ & _ & _ & _ & _ & _ & _ & _ & _ & _ & _ & _ & Hdg).
+  destruct (cfg_all_fields _ Hcf) as (_ & _ & _ & _ & _ & _ & _ & _ & _ & _ & _ & _ & _ & _ & _ & Hdg & _).
   intros Hg Hk Hr H. unfold TransformState.grid_set, with_obj in H. fold (get_obj s o) in H. rewrite Hg, Hdg in H.
   unfold grid_replaces in Hr.
   destruct (is_dense (o_kind P G C ob)) eqn:Ed.
-  - destruct (get_params s ob) as [[| r ip | f | o']|] eqn:Egp; try contradiction.
+  - assert (Hns : is_spline (o_kind P G C ob) = false) by (destruct (o_kind P G C ob); cbn in *; congruence).
+    destruct Hr as [Hx | Hr]; [congruence|].
+    destruct (get_params s ob) as [[| r ip | f | o']|] eqn:Egp; try contradiction.
     + destruct Hr as [_ Hq]. injection H as <-.
       destruct (base_grid_keeps s o g ob Hg Hk) as (ob1 & Hg1 & Hk1 & Hu1).
       exists ob1. repeat split; auto. rewrite Hk1; exact Hk.
@@ -196,14 +217,16 @@ Proof.
       exists ob1. repeat split; auto. rewrite Hk1; exact Hk.
   - assert (Hsp : is_spline (o_kind P G C ob) = true).
     { unfold is_nonrigid in Hk. rewrite Ed in Hk. exact Hk. }
-    rewrite Hsp in H.
-    destruct (get_params s ob) as [[| r ip | f | o']|] eqn:Egp; try contradiction;
-      try (destruct Hr as [Hx _]; congruence).
-    destruct Hr as [Hx | [_ Hsub]]; [congruence|]. rewrite Hsub in H.
+    rewrite Hsp in H. clear Hr.
+    destruct (spline_install_clears s o g ob Hg Hk) as (ob1 & Hg1 & Hk1 & Hu1).
+    assert (Hc1 : cleared (spline_install P G C cf s o g) o).
+    { exists ob1. repeat split; auto. rewrite Hk1; exact Hk. }
+    destruct (get_params s ob) as [[| r ip | f | o']|] eqn:Egp; try discriminate;
+      try (injection H as <-; exact Hc1).
     destruct (negb (spline_ok g)); try discriminate.
-    assert (Hg1 : get_obj (set_obj s o (set_grid P G C ob g)) o = Some (set_grid P G C ob g))
-      by apply (get_set_same' _ _ _ _ Hg).
-    eapply data_set_clears; [exact Hg1 | | exact H]. destruct ob; cbn in *; auto.
+    destruct (ffd_sub (o_grid P G C ob) g) as [[|]|]; try discriminate.
+    + eapply data_set_clears; [exact Hg1 | rewrite Hk1; exact Hk | exact H].
+    + injection H as <-. exact Hc1.
 Qed.
 
 (* ----- the theorem: tensor()/disp() right after a replacing operation ----- *)
